@@ -19,6 +19,7 @@ SurveyK = Obj("Survey", name=str, _xpath=Opt[XPathMap], attribute=Opt[StrMap], i
               submission_url=Opt[str], public_key=Opt[str], auto_send=Opt[str], auto_delete=Opt[str],
               entity_features=Opt[List[str]], namespaces=Opt[str], default_language=str,
               _translations=Dict[str, LangT], setvalues_by_triggering_ref=Dict[str, TrigL],
+              setgeopoint_by_triggering_ref=Dict[str, TrigL],
               children=List[Elem], instance=Opt[StrMap],
               type=str, bind=Opt[Dict[str, BindVal]], flat=Opt[bool], trigger=Opt[str], default=Opt[str],
               label=Opt[LabelVal], hint=Opt[LabelVal], guidance_hint=Opt[LabelVal], media=Opt[Dict[str, LabelVal]])
